@@ -142,3 +142,26 @@ func (d *dumper) val(v reflect.Value, depth int) {
 		d.b.WriteString("<?>")
 	}
 }
+
+// DiffContext returns the neighbourhood of the first difference of two strings.
+func DiffContext(a, b string) (string, string) {
+	i := 0
+	for i < len(a) && i < len(b) && a[i] == b[i] {
+		i++
+	}
+	cut := func(s string) string {
+		lo, hi := i-60, i+100
+		if lo < 0 {
+			lo = 0
+		}
+		if hi > len(s) {
+			hi = len(s)
+		}
+		pre := ""
+		if lo > 0 {
+			pre = "..."
+		}
+		return fmt.Sprintf("@%d %s%s", i, pre, strconv.Quote(s[lo:hi]))
+	}
+	return cut(a), cut(b)
+}
